@@ -426,3 +426,11 @@ RULES = [
     ("C12.c", "capacity", rule_c),
     ("C12.d", "single consumer", rule_d),
 ]
+
+
+def rule_inventory(ctx):
+    from . import inventory
+    inventory.check(ctx, ['mailbox-push', 'mailbox-pop', 'mailbox-close', 'file:mailbox-queue'])
+
+
+RULES.append(("C12.h", "state-mutation inventory: no new site that changes the content of the state this property rests on", rule_inventory))
